@@ -5,6 +5,7 @@ import (
 	"go/token"
 	"go/types"
 	"sort"
+	"strings"
 
 	"golang.org/x/tools/go/ssa"
 
@@ -164,4 +165,54 @@ func c01TaggedUnion(c *Ctx, typeName, tagField, payloadField string) {
 	}
 	r.Count("tagged_union_writers", len(writers))
 	r.Count("tagged_union_assertions", nread)
+}
+
+// c01LockPairing: on peer-reachable code, every mutex acquired by a function is released on
+// every exit of that function (deferred, or explicitly on each path). A leaked (read) lock does
+// not crash the node, it wedges it: the next writer blocks forever, and with a writer pending
+// every later reader does too - handler goroutines pile up and the content loop stops.
+func c01LockPairing(c *Ctx, reach map[*ssa.Function]bool) {
+	p, r := c.P, c.R
+	acquire := map[string]string{
+		"sync.(*Mutex).Lock":    "sync.(*Mutex).Unlock",
+		"sync.(*RWMutex).Lock":  "sync.(*RWMutex).Unlock",
+		"sync.(*RWMutex).RLock": "sync.(*RWMutex).RUnlock",
+	}
+	var fns []*ssa.Function
+	for f := range reach {
+		fns = append(fns, f)
+	}
+	sort.Slice(fns, func(i, j int) bool { return fns[i].String() < fns[j].String() })
+	n := 0
+	for _, fn := range fns {
+		perFn := 0
+		for _, b := range fn.Blocks {
+			for _, in := range b.Instrs {
+				call, ok := in.(*ssa.Call)
+				if !ok {
+					continue
+				}
+				rel, isAcq := acquire[core.CalleeID(call)]
+				if !isAcq || len(call.Call.Args) != 1 {
+					continue
+				}
+				mu := core.AccessPath(call.Call.Args[0])
+				n++
+				perFn++
+				isRel := func(i2 ssa.Instruction) bool {
+					ci, ok := i2.(ssa.CallInstruction)
+					if !ok || core.CalleeID(ci) != rel || len(ci.Common().Args) != 1 {
+						return false
+					}
+					return core.AccessPath(ci.Common().Args[0]) == mu
+				}
+				// a deferred release registered on every path from the acquisition to an exit counts
+				// (MustPassAfter treats `defer X.Unlock()` like any other instruction on the path)
+				w := core.MustPassAfter(call, isRel)
+				key := fmt.Sprintf("%s %s #%d", core.FuncName(fn), strings.TrimPrefix(strings.TrimPrefix(core.CalleeID(call), "sync.(*"), ""), perFn)
+				r.Check(w == nil, "R5.lock-pairing", key, p.Pos(call.Pos()), "released (or its release deferred) on every path to an exit", "this lock can still be held when the function returns: the next writer blocks forever and, with a writer pending, every later reader as well (handlers and the content loop wedge): "+p.PathString(w))
+			}
+		}
+	}
+	r.Count("lock_acquisitions_on_peer_reachable_code", n)
 }
